@@ -1,0 +1,138 @@
+//go:build verif
+
+package raft
+
+// Exports for the verification harness in /verif. This file is compiled only
+// with the "verif" build tag, adds no behaviour and changes no existing line.
+
+import "time"
+
+// VerifCommitment wraps the unexported commitment tracker.
+type VerifCommitment struct {
+	c  *commitment
+	ch chan struct{}
+}
+
+func VerifNewCommitment(configuration Configuration, startIndex uint64) *VerifCommitment {
+	ch := make(chan struct{}, 1)
+	return &VerifCommitment{c: newCommitment(ch, configuration, startIndex), ch: ch}
+}
+
+func (v *VerifCommitment) Match(id ServerID, idx uint64) { v.c.match(id, idx) }
+
+func (v *VerifCommitment) SetConfiguration(configuration Configuration) {
+	v.c.setConfiguration(configuration)
+}
+
+func (v *VerifCommitment) CommitIndex() uint64 { return v.c.getCommitIndex() }
+
+// Notified reports (and clears) whether commitCh was signalled.
+func (v *VerifCommitment) Notified() bool {
+	select {
+	case <-v.ch:
+		return true
+	default:
+		return false
+	}
+}
+
+func (v *VerifCommitment) MatchIndexes() map[ServerID]uint64 {
+	v.c.Lock()
+	defer v.c.Unlock()
+	out := make(map[ServerID]uint64, len(v.c.matchIndexes))
+	for k, x := range v.c.matchIndexes {
+		out[k] = x
+	}
+	return out
+}
+
+func VerifNextConfiguration(current Configuration, currentIndex uint64, command ConfigurationChangeCommand,
+	id ServerID, addr ServerAddress, prevIndex uint64) (Configuration, error) {
+	return nextConfiguration(current, currentIndex, configurationChangeRequest{
+		command: command, serverID: id, serverAddress: addr, prevIndex: prevIndex})
+}
+
+func VerifCheckConfiguration(configuration Configuration) error {
+	return checkConfiguration(configuration)
+}
+
+func VerifHasVote(configuration Configuration, id ServerID) bool { return hasVote(configuration, id) }
+
+func VerifBackoff(base time.Duration, round, limit uint64) time.Duration {
+	return backoff(base, round, limit)
+}
+
+// VerifNewRaftNoStart builds a Raft instance exactly as NewRaft does but
+// starts no goroutine (skipStartup).
+func VerifNewRaftNoStart(conf *Config, fsm FSM, logs LogStore, stable StableStore, snaps SnapshotStore, trans Transport) (*Raft, error) {
+	conf.skipStartup = true
+	return NewRaft(conf, fsm, logs, stable, snaps, trans)
+}
+
+// VerifStartFSM starts only the FSM goroutine of a no-start instance.
+func (r *Raft) VerifStartFSM() { r.goFunc(r.runFSM) }
+
+// VerifStartSnapshots starts only the snapshot goroutine of a no-start instance.
+func (r *Raft) VerifStartSnapshots() { r.goFunc(r.runSnapshots) }
+
+// VerifStopBackground closes shutdownCh so that goroutines started by the two
+// functions above exit, and waits for them.
+func (r *Raft) VerifStopBackground() {
+	r.shutdownLock.Lock()
+	if !r.shutdown {
+		close(r.shutdownCh)
+		r.shutdown = true
+	}
+	r.shutdownLock.Unlock()
+	r.waitShutdown()
+}
+
+func (r *Raft) VerifProcessRPC(rpc RPC)       { r.processRPC(rpc) }
+func (r *Raft) VerifProcessHeartbeat(rpc RPC) { r.processHeartbeat(rpc) }
+
+func (r *Raft) VerifCompactLogsWithTrailing(snapIdx, lastLogIdx, trailingLogs uint64) error {
+	return r.compactLogsWithTrailing(snapIdx, lastLogIdx, trailingLogs)
+}
+
+func (r *Raft) VerifQuorumSize() int { return r.quorumSize() }
+
+func (r *Raft) VerifSetState(s RaftState)                   { r.setState(s) }
+func (r *Raft) VerifSetLeader(a ServerAddress, id ServerID) { r.setLeader(a, id) }
+func (r *Raft) VerifSetLastContact()                        { r.setLastContact() }
+func (r *Raft) VerifSetCommitIndex(i uint64)                { r.setCommitIndex(i) }
+func (r *Raft) VerifSetCandidateFromLeadershipTransfer(b bool) {
+	r.candidateFromLeadershipTransfer.Store(b)
+}
+
+// VerifState is a dump of the main-goroutine state, to be read at quiescent
+// points only.
+type VerifState struct {
+	Term, CommitIndex, LastApplied      uint64
+	LastLogIndex, LastLogTerm           uint64
+	LastSnapshotIndex, LastSnapshotTerm uint64
+	State                               RaftState
+	LeaderAddr                          ServerAddress
+	LeaderID                            ServerID
+	Latest, Committed                   Configuration
+	LatestIndex, CommittedIndex         uint64
+	CandidateFromLeadershipTransfer     bool
+	LastContact                         time.Time
+}
+
+func (r *Raft) VerifDump() VerifState {
+	var s VerifState
+	s.Term = r.getCurrentTerm()
+	s.CommitIndex = r.getCommitIndex()
+	s.LastApplied = r.getLastApplied()
+	s.LastLogIndex, s.LastLogTerm = r.getLastLog()
+	s.LastSnapshotIndex, s.LastSnapshotTerm = r.getLastSnapshot()
+	s.State = r.getState()
+	s.LeaderAddr, s.LeaderID = r.LeaderWithID()
+	s.Latest = r.configurations.latest.Clone()
+	s.Committed = r.configurations.committed.Clone()
+	s.LatestIndex = r.configurations.latestIndex
+	s.CommittedIndex = r.configurations.committedIndex
+	s.CandidateFromLeadershipTransfer = r.candidateFromLeadershipTransfer.Load()
+	s.LastContact = r.LastContact()
+	return s
+}
